@@ -4393,6 +4393,9 @@ THEOREMS = [
     'C12.baseSolve_ok_iff', 'C12.baseSolve_assert_first', 'C12.baseSolve_axes_alias', 'C12.entry_stress_is_C_strain',
     'C12.entry_stress_div_free', 'C12.entry_burgers_jump', 'C12.gen_stress_is_C_strain', 'C12.gen_displacement_jump',
     'C12.gen_falls_as_inv_r', 'C12.gen_K_symm',
+    # round 5 — the exact-closure hypothesis replaced by what the solver has checked; Miller route end to end; generated K real
+    'C12.dispJump_eq_chkAL', 'C12.dispJump_defect', 'C12.accepted_closure_defect', 'C12.accepted_jump_defect',
+    'C12.baseSolve_miller_frame', 'C12.gen_K_real',
 ]
 PARTIAL = {
     'object level': 'history_read / arg_edits_invisible / scale_edit_read are statements about the model World (the solved object '
@@ -4404,6 +4407,11 @@ PARTIAL = {
         'tolerance on Im K) is unit-free only because Im K = 0 exactly for conjugate pairs (K_real_partial, ConjPairs verified by '
         'the driver); length_unit_displacement takes ln(t eta) = ln t + ln eta as a hypothesis (true for the principal logarithm and '
         't > 0 real). Powers of two only are compared exactly by the search; other factors within max(1e-9, 3 tol).',
+    'displacement jump (Stroh), round 5': 'the exact-closure hypothesis is no longer needed for the algebraic statement: '
+        'dispJump_defect gives jump - b = (sum_a k_a A_a (x) L_a - 1) b for ANY eigen-solver output, and accepted_jump_defect '
+        'bounds every entry of that defect matrix by tol + rtol delta_ij (squared modulus) for every problem Stroh.solve '
+        'accepts (its first self-check); the analytic one-sided-limit theorem burgers_jump_limit still takes exact closure and '
+        'the sign pattern of Im p_a.',
     'displacement jump (Stroh)': 'burgers_closure / burgers_jump_limit (one-sided limits of the coded displacement with the '
         'principal complex logarithm, lim(y->0+) - lim(y->0-) = b) assume the completeness relation sum_a k_a A_a (x) L_a = 1 '
         'exactly (it is the solver\'s own first self-check, which holds to round-off; the driver recomputes the residual for '
@@ -4423,9 +4431,20 @@ PARTIAL = {
         '(1e-7 .. 1e-2); in between the dispatcher refuses (ValueError) unless the constants pass the isotropic solver\'s '
         'own test, which is outside the property (near-degeneracy).',
     'dispatcher': 'dispatch_stroh_first / dispatch_iso_iff / dispatch_none_iff / dispatch_iso_jump are about the model of the '
-        'try/except in solve_volterra_dislocation; its inputs (does Stroh.solve raise, C.is_normal) are outcomes of the real '
-        'code in the correspondence. That Stroh.solve raises exactly when strohAccept fails is tied only in the accepting '
-        'direction (a refused eigen-solver output is not observable from outside).',
+        'try/except in solve_volterra_dislocation, which since round 5 is proved equal to the structure regenerated from the '
+        'source (gen_dispatch_eq_model, gen_dispatch_catches, gen_forwarding_eq_model); its inputs (does Stroh.solve raise, '
+        'C.is_normal) are outcomes of the real code in the correspondence. That Stroh.solve raises exactly when strohAccept '
+        'fails is tied in the accepting direction by the correspondence and structurally by gen_checks_stored / the pinned '
+        'real-K test (a refused eigen-solver output is not observable from outside).',
+    'source tie': 'Generated/StrohSource.lean is assembled from the source with ast and every definition in it is proved equal '
+        'to the hand model (30 gen_ obligations); statements that are calls into numpy / other properties / stores are held by '
+        'normalised text pins (gen_pins_pinned, gen_getters_pinned): a harmless rewrite of such a statement breaks the pin and '
+        'is then decided by the failing-input search. Not generated: theta() and the frame plumbing of the isotropic solver '
+        '(text pins of the first translator), tools.axes_check (model + ops axes / base), tools.vect_angle (search oracle only), '
+        'how many points are evaluated together (per-point semantics; array sizes are the search\'s business).',
+    'API level': 'baseSolve models VolterraDislocation.solve for array-valued and named axes with numpy.linalg.norm of the rows '
+        'and the Miller -> Cartesian conversions (property C16) as parameters; axis strings other than x, y, z, non-3-vectors '
+        'and non-(3,3) orientation arrays (TypeError / AssertionError from numpy shapes) are outside the model.',
     'isotropic solution on the plane x = 0': 'iso_strain_is_symgrad_deriv is stated on the open half-planes x != 0, where '
         'theta() is arctan(y/x) plus a constant (thetaOf_halfplanes); that the special-cased values +-pi/2 on x = 0 make '
         'the displacement continuous (and differentiable) across that plane is not stated in Lean; the continuity oracle '
@@ -4499,6 +4518,10 @@ ASSUMPTIONS = [
     'solution uses a medium within 2e-4 of the given one)',
 ]
 TRUSTED = ['numpy.linalg.eig / inv / norm, np.log, np.arctan (values handed to the model, residuals recomputed exactly)',
+           'the second AST translator (einsum / dot / outer / cross / broadcasting -> explicit index sums; option handling -> do '
+           'block; signatures and call arguments -> string tables) for Stroh.py, VolterraDislocation.py, '
+           'solve_volterra_dislocation.py, dislocation_system_transform.py, ElasticConstants.transform: per-point semantics of '
+           'numpy broadcasting and of einsum with an ellipsis are what it encodes',
            'numpy array semantics (views, in-place operators, np.shares_memory) in the in-place / aliasing oracles',
            'the AST translator for IsotropicVolterraDislocation.py (this module + harness/translate.py)',
            'finite-difference oracles (4th-order Richardson, h = r/1000) in the search']
@@ -4527,7 +4550,18 @@ MANIFEST = {
             'normal has the sign of each index along its cell edge in a right-handed cell, __find_transform takes the unit '
             'normal to n, the unit line to m x n, their cross product to m, hence the frame is fixed by the SIGNS of the indices; '
             'every zero x sign pattern of plane and line indices runs on every check; arrays of N points for N around every '
-            'power of two up to 2^17 (2^19 thorough) and at multiples of plausible block lengths, every row compared.',
+            'power of two up to 2^17 (2^19 thorough) and at multiples of plausible block lengths, every row compared. '
+            'Round 5: second translator: Generated/StrohSource.lean is assembled with ast from Stroh.py (contractions, quadrants and '
+            'layout of N, eigenvector split, k, self-checks, eta, K_tensor, displacement / strain / stress with their einsum index '
+            'strings and updn literals), VolterraDislocation.py (signature, option handling as a do block, axis-name table and '
+            'axis tests, Burgers-vector clean-up, __find_transform, K_coeff, preln, getters), solve_volterra_dislocation.py (try / '
+            'except, forwarding), dislocation_system_transform.py, the in-plane test of the isotropic solver and the einsums of '
+            'ElasticConstants.transform; 30 obligations gen_..._eq_model / _pinned prove every generated definition equal to the '
+            'hand model. API-level model baseSolve (refusal classes in source order) with driver op base; theorems: which option '
+            'combinations are refused (iff), axes = transform, stored Burgers vector within tol max|b| of the rotated request, '
+            'stress = C : strain and div-free coefficients for every accepted call without symmetry hypotheses (the stored medium '
+            'is cijkl of a 6x6 array), jump - b = (sum k A (x) L - 1) b with every entry of the defect bounded by what the '
+            'solver\'s own first self-check accepts, the same clauses for the generated field methods.',
     'note': 'Trusted: Lean kernel + propext/Classical.choice/Quot.sound; numpy.linalg.eig/inv, np.log, np.arctan (their values '
             'are inputs of the model and the residuals of what the theorems assume about them are recomputed exactly by the '
             'driver for every solved problem); the AST translator; float round-off bounded by 1e-11 x sum |terms| in the '
